@@ -283,7 +283,8 @@ def script(rng, case, idx):
             r.end_stage('one')
             made = r.create_solution(sulf, rng.choice([water, a]), name='made', concentration=rng.choice(['0.2 M', '4 g/L']), total_quantity='12 mL')
             r.start_stage('two')
-            r.transfer(made, pl[1, :], rng.choice(['5 uL', '10 uL']))
+            # (into the first or the second row: with the second, the first well of the plate never holds what 'made' brings)
+            r.transfer(made, pl[rng.choice([1, 2]), :], rng.choice(['5 uL', '10 uL']))
             r.fill_to(b, water, rng.choice(['40 mL', '60 g']))
             r.dilute(a, salt, rng.choice(['0.1 M', '2 g/L']), water)
             r.remove(pl[2, :], rng.choice([salt, 2]))
